@@ -169,8 +169,12 @@ def scanner_jobs(tus):
         def task():
             oob = []
             m = mk(term)
-            ex = scanex.Explorer([m], symbols, term, lookbehind=lb, on_oob=lambda mach, w, msg: oob.append((scanex.show([s for s in w if s != END]), msg)))
-            ex.run(lambda r, w: None)
+            def on_oob(mach, w, msg):
+                oob.append((scanex.show([s for s in w if s != END]), msg))
+                if len(oob) >= 3: raise scanex.Stop()                 # the verdict is a violation; no need to enumerate more
+            ex = scanex.Explorer([m], symbols, term, lookbehind=lb, on_oob=on_oob)
+            try: ex.run(lambda r, w: None)
+            except scanex.Stop: pass
             return ex.configs, ex.transitions, oob[:5], getattr(m, 'overruns', 0)
         jobs.append(task); meta.append((name, term))
     for mode in ('822', '5321', '5322'):
@@ -216,7 +220,7 @@ def run(ck):
         ck.mc(cfg, tr); ck.analysed(functions=[name])
         if not oob: r62.instance(name, ok=True, detail={'terminator': hex(term), 'configurations': cfg})
         for w, msg in oob[:2]:
-            r62.instance(name, ok=False, wclass='out-of-range-read', witness=w, what=f'{name}: {msg} on input {w!r} (byte after the range = {term:#x})')
+            r62.instance(name, ok=False, wclass=('unbounded-integer' if msg.startswith('integer variable') else 'out-of-range-read'), witness=w, what=f'{name}: {msg} on input {w!r} (byte after the range = {term:#x})')
     # prologue of is_ascii_domain on short strings and length cells: reads stay inside
     from rules.c04 import domain_alphabet
     import itertools
@@ -357,6 +361,42 @@ def run(ck):
                             if nm == 'strncasecmp' and len(args) == 3 and re.search(r'\.length$|->length$', args[2]): continue   # bounded by a table entry
                             ok = False; why = f'{nm}({", ".join(args)}) inside a loop is neither on the advancing pointer nor bounded by a table entry'
                 r68.instance(site if not ok else f'{key}:{fname}:loops', ok=ok, wclass='loop', what=f'{fname}: {why} ({where(l)})')
+    # ---- R6.9 accumulators
+    r69 = ck.rule('R6.9', 'an integer that is multiplied or shifted inside a loop (an accumulator of input digits) is bounded by a check on its new value in the same iteration, so it cannot overflow however long the input is', 1)
+    nacc = 0
+    for key, tu in sorted(tus.items()):
+        for fname, f in tu.own_functions().items():
+            accs = set()
+            for l in [n for n in astutil.walk(f) if n.get('kind') in ('ForStmt', 'WhileStmt', 'DoStmt')]:
+                for n in astutil.walk(l):
+                    if n.get('kind') == 'CompoundAssignOperator' and n.get('opcode') in ('*=', '<<='):
+                        accs.add(cfgpaths.Engine(tu, fname).render(n['inner'][0], cfgpaths.Path(), lvalue=True))
+                    if n.get('kind') == 'BinaryOperator' and n.get('opcode') == '=':
+                        lv = cfgpaths.Engine(tu, fname).render(n['inner'][0], cfgpaths.Path(), lvalue=True)
+                        rhs = astutil.strip(n['inner'][1])
+                        if rhs.get('kind') == 'BinaryOperator' and rhs.get('opcode') in ('*', '<<') and any(m.get('kind') == 'DeclRefExpr' and m['referencedDecl'].get('name') == lv for m in astutil.walk(rhs)): accs.add(lv)
+            if not accs: continue
+            eng, paths = cfgpaths.summarise(tu, fname)
+            for x in sorted(accs):
+                nacc += 1; why = []
+                for p in paths:
+                    ev = p.events
+                    for i, e in enumerate(ev):
+                        if not (e[0] == 'set' and e[1] == x and re.search(r'\*|<<', e[2])): continue
+                        # follow the value of x to the end of the iteration
+                        val = e[2]; bounded = False
+                        for e2 in ev[i + 1:]:
+                            if e2[0] == 'loop' and e2[1].endswith(':backedge'): break
+                            if e2[0] == 'set' and e2[1] == x: val = e2[2]
+                            if e2[0] == 'cond':
+                                m = re.fullmatch(re.escape('(' + val) + r' (>|>=|<|<=) (\d+)\)', e2[1])
+                                if m and ((m.group(1) in ('>', '>=') and not e2[2]) or (m.group(1) in ('<', '<=') and e2[2])): bounded = True
+                            if e2[0] == 'return': bounded = bounded or True
+                        else:
+                            bounded = True          # the path left the function inside this iteration
+                        if not bounded: why.append(f'{x} := {e[2]} reaches the next iteration without an upper-bound test ({where(e[3])})')
+                r69.instance(f'{key}:{fname}:{x}', ok=not why, wclass='unbounded-accumulator', what=f'{fname}: ' + '; '.join(sorted(set(why))[:2]) + ': signed overflow (undefined behaviour) on a long enough digit run')
+    if nacc == 0: raise AnalysisBroken('R6.9 found no accumulator at all (is_ipv4 multiplies byte_val by 10): the rule may be dead')
     # ---- R6.5 = C14 R14.2 (stores) and R14.1 (no globals), run here as part of the bundle
     from rules import c14
     c14.run(ck)
